@@ -46,7 +46,8 @@ def fail_tokens(kind):
 def gen_test(rng, idx, failure=None, kinds=None):
     kinds = kinds or ["xor_add", "mul", "div", "mod", "sdiv", "addmod", "mulmod", "exp", "bytes_len", "arr_sum", "unsat", "two_args", "storage",
                       "signed", "shift", "nested_assert", "conj3", "loop_guard", "arr_loop", "bytes_tail", "disarm", "storage", "storage2",
-                      "smod_zero", "mod_zero", "div_zero", "sdiv_zero", "addmod_zero", "mulmod_zero"]
+                      "smod_zero", "mod_zero", "div_zero", "sdiv_zero", "addmod_zero", "mulmod_zero",
+                      "div_zero_hit", "mod_zero_hit", "sdiv_zero_hit", "smod_zero_hit", "nested_stuck", "mul_exp", "two_fail"]
     kind = rng.choice(kinds)
     failure = failure or rng.choice(["panic1", "panic1", "panic11", "vmassert", "vmasserteq", "failflag"])
     name = f"check_t{idx}"
@@ -158,6 +159,33 @@ def gen_test(rng, idx, failure=None, kinds=None):
         s, K = rng.randrange(1, 200), rng.getrandbits(40) | 1
         body = arg(0) + [s, "SHR", K, "EQ"] + arg(0) + [1, "AND", "AND", "@bad", "JUMPI", "STOP"] + bad
         return GenTest(Fn(name, [("x", U)], body), [[(K << s) | 1]], True, kind, failure, feats)
+    if kind in ("div_zero_hit", "mod_zero_hit", "sdiv_zero_hit", "smod_zero_hit"):
+        # the dual of the *_zero kinds: the failure needs the EVM convention "x op 0 == 0" with a non-zero dividend; a refinement whose
+        # zero-divisor case is wrong (or guarded on the wrong operand) makes the refined query unsat and the test PASS
+        K = rng.choice([7, rng.randrange(1, 2**64), M - rng.randrange(0, 5)])
+        op = {"div_zero_hit": "DIV", "mod_zero_hit": "MOD", "sdiv_zero_hit": "SDIV", "smod_zero_hit": "SMOD"}[kind]
+        body = arg(1) + arg(0) + [op, "ISZERO"] + arg(1) + ["ISZERO", "AND"] + arg(0) + [("push", K, 32), "EQ", "AND", "@bad", "JUMPI", "STOP"] + bad
+        return GenTest(Fn(name, [("x", U), ("y", U)], body), [[K, 0]], True, kind, failure, feats, needs_refinement=True)
+    if kind == "mul_exp":
+        # a refinable abstraction (MUL) and an un-refinable one (EXP with symbolic exponent) on the same failing path; never fails concretely:
+        # x * y == 35 has (1,35),(5,7),(7,5),(35,1),... and none of them gives x ** y == 2
+        body = arg(1) + arg(0) + ["MUL", 35, "EQ"] + arg(1) + arg(0) + ["EXP", 2, "EQ", "AND"] + arg(0) + [100, "GT", "AND"] + arg(1) + [100, "GT", "AND", "@bad", "JUMPI", "STOP"] + bad
+        return GenTest(Fn(name, [("x", U), ("y", U)], body), [[5, 7], [35, 1], [1, 35]], False, kind, failure, feats, needs_refinement=True, abstraction_in_model=True)
+    if kind == "two_fail":
+        # two failing paths that share the input x: their counterexamples are two different models with the same variable names
+        a, b = rng.randrange(11, 1000), rng.randrange(1, 1000)
+        body = (arg(0) + [10, "LT", "ISZERO", "@lo", "JUMPI"] + arg(1) + arg(0) + [1, "ADD", "EQ", "@bad", "JUMPI", "STOP",
+                ":lo"] + arg(2) + [b, "EQ", "@bad", "JUMPI", "STOP"] + bad)
+        return GenTest(Fn(name, [("x", U), ("y", U), ("z", U)], body), [[a, a + 1, 0], [3, 0, b]], True, kind, failure, feats)
+    if kind == "nested_stuck":
+        # an internal error (symbolic memory offset) inside a nested call, and the assertion failure only *after* that call returned:
+        # the exploration of this path is incomplete, so PASS would be unsound
+        K = rng.randrange(1, 2**12)
+        after = arg(0) + [K, "EQ", "@bad", "JUMPI", "STOP"] + bad
+        t = GenTest(Fn(name, [("x", U)], A.call_cheat(A.TEST, "helper(uint256)", [arg(0)]) + ["POP"] + after), [[K]], True, kind, failure, feats | {"nested-call", "internal-error-in-callee"})
+        t.helper = Fn("helper", [("v", U)], arg(0) + ["MLOAD", "POP", "STOP"])
+        t.mk_body = lambda sig, after=after: A.call_cheat(A.TEST, sig, [arg(0)]) + ["POP"] + after
+        return t
     if kind == "nested_assert":
         # the failing assertion happens inside a nested call to this contract (helper selector 0xdeadbeef handled inline):
         K = rng.getrandbits(64)
@@ -210,7 +238,7 @@ def gen_contract(rng, ntests=3, name="T", kinds=None, failure=None, symbolic_set
             seen += 1
             if seen > 1:
                 t.helper.name = f"helper{seen}"
-                t.fn.body = A.call_cheat(A.TEST, t.helper.sig, [arg(0)]) + ["POP", "STOP"]
+                t.fn.body = t.mk_body(t.helper.sig) if hasattr(t, "mk_body") else A.call_cheat(A.TEST, t.helper.sig, [arg(0)]) + ["POP", "STOP"]
     spec = A.ContractSpec(name, fns)
     return spec, setup, tests
 
